@@ -52,14 +52,28 @@ def gen_data(rng, n, p, kind):
     return X
 
 
+def wide_case(rng):
+    """many columns with a fixed covariance far from the unit scale: |log det| is in the hundreds or thousands"""
+    p = rng.choice([100, 120])
+    n = p + 2  # the multivariate cost needs p + 1 rows per interval
+    sc2 = rng.choice([1e-4, 1e-4, 2500.0])
+    X = [[rng.randint(-3, 3) * (sc2 ** 0.5) for _ in range(p)] for _ in range(n)]
+    cov = [[sc2 * ((1.0 if i == j else 0.0) + 0.01) for j in range(p)] for i in range(p)]
+    return {"n": n, "p": p, "cost": "gcov", "mode": "fixed", "kind": "wide", "X": X, "param": [0.0, cov], "form": "float", "refit": None}
+
+
 def gen_case(rng, nmax):
+    if rng.random() < 0.008:
+        return wide_case(rng)
     p = rng.randint(1, 3)
     n = rng.randint(1, nmax)
     cost = rng.choice(["l2", "l2", "gvar", "gvar", "gcov"])
     mode = rng.choice(["optim", "fixed"])
     kind = rng.choice(["int", "int", "float", "const-col", "collinear", "small", "tiny"])
     X = gen_data(rng, n, p, kind)
-    c = {"n": n, "p": p, "cost": cost, "mode": mode, "kind": kind, "X": X}
+    c = {"n": n, "p": p, "cost": cost, "mode": mode, "kind": kind, "X": X,
+         # argument form of a fixed parameter, and whether the scorer was fitted before on the same array object holding other values
+         "form": rng.choice(["float", "float", "int", "npint", "list"]), "refit": rng.choice([None, None, "same-object", "other-object"])}
     if mode == "fixed":
         percol = rng.random() < 0.5
         mean = [rng.randint(-2, 2) / 2 for _ in range(p)] if percol else rng.randint(-2, 2) / 2
@@ -78,30 +92,59 @@ def gen_case(rng, nmax):
     return c
 
 
+def _form(v, form):
+    """a fixed parameter in one of the argument forms users pass: float / array of floats (as generated), or — when the
+    value is integral — Python int, NumPy integer scalar, list of ints, integer array"""
+    def integral(x):
+        return float(x) == int(float(x)) and abs(float(x)) < 2**31
+
+    if isinstance(v, list) and v and isinstance(v[0], list):  # matrix
+        flat = [x for row in v for x in row]
+        if form in ("int", "npint") and all(integral(x) for x in flat):
+            return np.array(v, dtype=np.int64) if form == "npint" else [[int(x) for x in row] for row in v]
+        return np.array(v, dtype=float) if form != "list" else v
+    if isinstance(v, list):
+        if form in ("int", "npint") and all(integral(x) for x in v):
+            return np.array(v, dtype=np.int64) if form == "npint" else [int(x) for x in v]
+        return np.array(v, dtype=float) if form != "list" else list(v)
+    if form in ("int", "npint") and integral(v):
+        return np.int64(int(v)) if form == "npint" else int(v)
+    return v
+
+
 def mk_cost(case):
     from skchange.costs import GaussianCovCost, GaussianVarCost, L2Cost
 
     prm = case.get("param")
+    form = case.get("form", "float")
     if case["cost"] == "l2":
-        return L2Cost(param=None if prm is None else (np.array(prm, dtype=float) if isinstance(prm, list) else prm))
+        return L2Cost(param=None if prm is None else _form(prm, form))
     if case["cost"] == "gvar":
         if prm is None:
             return GaussianVarCost()
         m, v = prm
-        return GaussianVarCost(param=(np.array(m, dtype=float) if isinstance(m, list) else m,
-                                      np.array(v, dtype=float) if isinstance(v, list) else v))
+        return GaussianVarCost(param=(_form(m, form), _form(v, form)))
     if prm is None:
         return GaussianCovCost()
     m, cov = prm
-    return GaussianCovCost(param=(np.array(m, dtype=float) if isinstance(m, list) else m, np.array(cov, dtype=float)))
+    return GaussianCovCost(param=(_form(m, form), _form(cov, form)))
 
 
 def impl(case):
     X = np.array(case["X"], dtype=float)
     n = case["n"]
-    X0 = X.copy()
     try:
-        sc = mk_cost(case).fit(X)
+        sc = mk_cost(case)
+        if case.get("refit") == "same-object":  # fit, replace the contents of that very array in place, fit again
+            Z = X[::-1] * 3.0 - 1.0
+            Z.setflags(write=True)
+            sc.fit(Z)
+            Z[...] = X
+            X = Z
+        elif case.get("refit") == "other-object":
+            sc.fit(X[::-1] * 3.0 - 1.0)
+        X0 = X.copy()
+        sc.fit(X)
         ms = int(sc.min_size)
         ivs = [(s, e) for s in range(n) for e in range(s + ms, n + 1)]
         out = {"outcome": "ok", "min_size": ms, "vals": {}, "errs": {}, "shape_ok": True, "batch_ok": True}
